@@ -8,10 +8,7 @@ import (
 	"io"
 	"math/rand"
 	"net"
-	"os"
 	"regexp"
-	"runtime/debug"
-	"runtime/pprof"
 	"sort"
 	"strconv"
 	"strings"
@@ -163,12 +160,6 @@ func (w *world) close() {
 	// cancelling the context alone does not end Service.Run (it sits in HandleListener): close the service itself first
 	_ = w.srv.Svc.Close()
 	w.srv.Close()
-	if os.Getenv("C09_DEBUG_CLOSE") != "" {
-		if !h.Eventually(4*time.Second, func() bool { b, _ := isBound("tcp", w.bind); return !b }) && debugOnce.CompareAndSwap(false, true) {
-			fmt.Fprintf(os.Stderr, "world of case %d (bind %d) not closed\n", w.c.Idx, w.bind)
-			_ = pprof.Lookup("goroutine").WriteTo(os.Stderr, 2)
-		}
-	}
 	giveBlock(w.block)
 }
 
@@ -594,7 +585,6 @@ func pick[T any](rng *rand.Rand, l []T) T { return l[rng.Intn(len(l))] }
 // port blocks: the property's private range is cut once into blocks of 9 ports; a block belongs to one live world at a time
 
 var blockPool chan []int
-var debugOnce atomic.Bool
 
 func initBlocks() {
 	const n = 108
@@ -643,31 +633,11 @@ func takeBlock() []int {
 			return b
 		}
 		run.Count("port_block_still_busy", 1)
-		if v, ok := blockLog.Load(b[0]); ok {
-			fmt.Fprintf(os.Stderr, "busy block %d at %v, last: %s\n", b[0], time.Now().Format("15:04:05.000"), v)
-		}
-		for i, p := range b {
-			if tb, _ := isBound("tcp", p); tb {
-				fmt.Fprintf(os.Stderr, "busy block: tcp port %d (index %d) still bound\n", p, i)
-			}
-			if ub, _ := isBound("udp", p); ub {
-				fmt.Fprintf(os.Stderr, "busy block: udp port %d (index %d) still bound\n", p, i)
-			}
-		}
 		blockPool <- b
 	}
 }
 
-var blockLog sync.Map
-
 func giveBlock(b []int) {
-	n := 0
-	for _, p := range b {
-		if tb, _ := isBound("tcp", p); tb {
-			n++
-		}
-	}
-	blockLog.Store(b[0], fmt.Sprintf("given back at %v with %d tcp ports bound\n%s", time.Now().Format("15:04:05.000"), n, debug.Stack()))
 	blockPool <- b
 }
 
